@@ -1,6 +1,6 @@
 """Contracts for Chart.from_file / Chart.from_filepath (C06, C13; safety instance for C18)."""
 from pyvc.contract import Contract, LoopSpec, Conc, Ghost
-from pyvc.values import INT, STR, OptS, TupS, SeqS, DictS, ViewS, MapS
+from pyvc.values import INT, BOOL, STR, OptS, TupS, SeqS, DictS, ViewS, MapS
 from pyvc.objects import SymbolicFile
 from .c_sync import _cls, BIG
 
@@ -17,7 +17,7 @@ def register(reg, S):
     tokens = ("forall(0, len(g_lines), lambda i: " + " and ".join(
         [f"implies(rxm('{B}', {L}), pyint(rxg('{B}', 1, {L})) <= {BIG} and pyint(rxg('{B}', 2, {L})) <= 10**11)",
          f"implies(rxm('{TSK}', {L}), pyint(rxg('{TSK}', 1, {L})) <= {BIG})",
-         f"implies(fieldm('resolution', {L}), pyint(fieldg('resolution', {L})) <= 2**50)"]
+         f"implies(fieldm('resolution', {L}), pyint(fieldg('resolution', {L})) <= {BIG})"]
         + [f"implies(rxm('{p}', {L}), pyint(rxg('{p}', 1, {L})) <= {BIG})" for p in G]) + ")")
     itok = S["itok"].replace("lines", "g_lines")
     ghost = dict(g_lines=SeqS(STR), g_k=INT, g_start=SeqS(INT), g_tag=SeqS(STR))
@@ -26,29 +26,61 @@ def register(reg, S):
     selected = lambda p: f"(want_tracks is None or {p} in want_tracks)"
     ITS = "chartparse.instrument:InstrumentTrack.from_chart_lines[safety]"
 
+    # ghost: per section j, whether its header names a track (g_has[j]) and which pair (g_pi[j], g_pd[j]):
+    # keeps the 40-entry header table out of the routing invariant
+    pairs_def = ("pairs-of-sections",
+                 "len(g_has) == g_k and len(g_pi) == g_k and len(g_pd) == g_k and forall(0, g_k, lambda j: iff(g_has[j], pair_of_tag(g_tag[j]) is not None) "
+                 "and implies(g_has[j], g_pi[j] == pair_of_tag(g_tag[j])[0] and g_pd[j] == pair_of_tag(g_tag[j])[1]))")
+
     def routed(tracks, upto, be_):
         return [
+            # the header table is the inverse of '<Difficulty><Instrument>' (distinct sections have distinct pairs)
+            ("header-names-its-pair", "forall(0, g_k, lambda j: implies(g_has[j], tagname(g_pi[j], g_pd[j]) == g_tag[j]))"),
             ("selected-sections-parsed-into-their-track",
-             f"forall(0, {upto}, lambda j: implies(pair_of_tag(g_tag[j]) is not None and {selected('pair_of_tag(g_tag[j])')}, "
-             f"pair_of_tag(g_tag[j])[0] in {tracks} and pair_of_tag(g_tag[j])[1] in {tracks}[pair_of_tag(g_tag[j])[0]] "
-             f"and {tracks}[pair_of_tag(g_tag[j])[0]][pair_of_tag(g_tag[j])[1]] == fn_result('{ITS}', pair_of_tag(g_tag[j])[0], pair_of_tag(g_tag[j])[1], {body('j')}, {be_})))"),
+             f"forall(0, {upto}, lambda j: implies(g_has[j] and {selected('(g_pi[j], g_pd[j])')}, "
+             f"g_pi[j] in {tracks} and g_pd[j] in {tracks}[g_pi[j]] "
+             f"and same({tracks}[g_pi[j]][g_pd[j]], fn_result('{ITS}', g_pi[j], g_pd[j], {body('j')}, {be_}))))"),
             ("no-other-track",
              f"forall_keys({tracks}, lambda i: forall_keys({tracks}[i], lambda d: {selected('(i, d)')} and exists(0, {upto}, lambda j: g_tag[j] == tagname(i, d))))"),
         ]
     common = dict(
         params=dict(cls=_cls(C + "Chart"), fp=Conc(lambda: _FP, "text-file"), want_tracks=WT),
         result=S["Chart"], ghost_params=ghost, pure=False, silent=False)
+    slim = {"chartparse.metadata:Metadata.from_chart_lines": ["resolution/comes-from"],
+            "chartparse.sync:SyncTrack.from_chart_lines": ["bpm/well-formed", "bpm/envelope"],
+            "chartparse.globalevents:GlobalEventsTrack.from_chart_lines": [],
+            "chartparse.instrument:InstrumentTrack.from_chart_lines": []}
+    P = "chartparse.chart:Chart._partition_lines_by_data_section"
+    pre = wf + [("tokens-bounded", tokens), ("instrument-tokens-bounded", itok)]
+    allowed = {"ValueError": "True", "MissingRequiredField": "True"}
+    trivial = {0: LoopSpec(invariants=[("trivial", "True")])}
+    modes = {"chartparse.instrument:InstrumentTrack.from_chart_lines": "safety"}
+    # The postcondition of from_file is proved in three groups (three units over the same real
+    # body), each importing only the callee facts it needs -- the full conjunction drowns the solver.
     reg.add(Contract(
-        C + "Chart.from_file", **common,
-        requires=wf + [("tokens-bounded", tokens), ("instrument-tokens-bounded", itok)],
-        raise_allowed={"ValueError": "True", "MissingRequiredField": "True"},
-        must_raise=[f"not exists(0, g_k, lambda j: g_tag[j] == '{t}')" for t in ("Song", "SyncTrack", "Events")],
+        C + "Chart.from_file", inst="sections", **common, requires=pre, raise_allowed=allowed,
         ensures=[
-            ("song-feeds-metadata", f"forall(0, g_k, lambda j: implies(g_tag[j] == 'Song', result.metadata == fn_result('chartparse.metadata:Metadata.from_chart_lines', {body('j')})))"),
-            ("synctrack-feeds-tempo-and-meter", f"forall(0, g_k, lambda j: implies(g_tag[j] == 'SyncTrack', result.sync_track == fn_result('chartparse.sync:SyncTrack.from_chart_lines', result.metadata.resolution, {body('j')})))"),
-            ("events-feed-global-events", f"forall(0, g_k, lambda j: implies(g_tag[j] == 'Events', result.global_events_track == fn_result('chartparse.globalevents:GlobalEventsTrack.from_chart_lines', {body('j')}, {be})))"),
-        ] + routed("result.instrument_tracks", "g_k", be),
+            ("song-feeds-metadata", f"forall(0, g_k, lambda j: implies(g_tag[j] == 'Song', same(result.metadata, fn_result('chartparse.metadata:Metadata.from_chart_lines', {body('j')}))))"),
+            ("synctrack-feeds-tempo-and-meter", f"forall(0, g_k, lambda j: implies(g_tag[j] == 'SyncTrack', same(result.sync_track, fn_result('chartparse.sync:SyncTrack.from_chart_lines', result.metadata.resolution, {body('j')}))))"),
+            ("events-feed-global-events", f"forall(0, g_k, lambda j: implies(g_tag[j] == 'Events', same(result.global_events_track, fn_result('chartparse.globalevents:GlobalEventsTrack.from_chart_lines', {body('j')}, {be}))))"),
+        ],
+        loops=trivial, locals={"instrument_tracks": S["TrackMap"]}, callee_modes=modes, call_site=False,
+        callee_ensures=dict(slim, **{P: ["one-entry", "each-section"]}),
+        props=["C06", "C13"]))
+    reg.add(Contract(
+        C + "Chart.from_file", inst="required-sections", **common, requires=pre, raise_allowed=allowed,
+        must_raise=[f"not exists(0, g_k, lambda j: g_tag[j] == '{t}')" for t in ("Song", "SyncTrack", "Events")],
+        loops=trivial, locals={"instrument_tracks": S["TrackMap"]}, callee_modes=modes, call_site=False,
+        callee_ensures=dict(slim, **{P: ["no-other-key"]}),
+        props=["C06"]))
+    reg.add(Contract(
+        C + "Chart.from_file", inst="routing", **dict(common, ghost_params=dict(ghost, g_has=SeqS(BOOL), g_pi=SeqS(S["Instrument"]), g_pd=SeqS(S["Difficulty"]))),
+        requires=pre + [pairs_def], raise_allowed=allowed,
+        ensures=routed("result.instrument_tracks", "g_k", be),
         loops={0: LoopSpec(invariants=routed("instrument_tracks", "_it", "sync_track.bpm_events"))},
-        locals={"instrument_tracks": S["TrackMap"]},
-        callee_modes={"chartparse.instrument:InstrumentTrack.from_chart_lines": "safety"},
+        ghosts=[Ghost("instrument_difficulty_pair = instrument_track_name_to_instrument_difficulty_pair[header_tag]",
+                      "hint('current-section-pair', header_tag == g_tag[_it] and g_has[_it] and instrument_difficulty_pair[0] == g_pi[_it] and instrument_difficulty_pair[1] == g_pd[_it])\n"
+                      "rebind('instrument_difficulty_pair', (g_pi[_it], g_pd[_it]))")],
+        locals={"instrument_tracks": S["TrackMap"]}, callee_modes=modes, call_site=False,
+        callee_ensures=dict(slim, **{P: ["one-entry", "each-section"]}),
         props=["C06", "C13"]))
